@@ -174,6 +174,29 @@ def run(call: GeneratorCall) -> Module:
             raise RuntimeError(msg)
         the_cache.pending.add(call)
 
+    try:
+        m = _run_func(call)
+    except Exception:
+        # The call is no longer in flight. Unlike a cached result, a failure is not remembered:
+        # calling again simply runs the generator function again.
+        the_cache.stack.pop()
+        if call.gen.enable_cache:
+            the_cache.pending.discard(call)
+        raise
+
+    # Store the result in our cache, and on the Call.
+    the_cache.stack.pop()
+    if call.gen.enable_cache:
+        the_cache.pending.remove(call)
+        the_cache.done[call] = m
+
+    # And return the generated Module
+    return m
+
+
+def _run_func(call: GeneratorCall) -> Module:
+    """Run the generator-function of `call`, check and name its result. The un-cached part of `run`."""
+
     # Check that the call has a valid instance of the generator's parameter-class
     if not isinstance(call.params, call.gen.Params):
         msg = f"Invalid Generator Call {call}: {call.gen.Params} instance required, got {call.params}"
@@ -204,13 +227,6 @@ def run(call: GeneratorCall) -> Module:
         if hasparams(call.gen.Params):
             m.name += "(" + _unique_name(call.params) + ")"
 
-    # Store the result in our cache, and on the Call.
-    the_cache.stack.pop()
-    if call.gen.enable_cache:
-        the_cache.pending.remove(call)
-        the_cache.done[call] = m
-
-    # And return the generated Module
     return m
 
 
